@@ -44,6 +44,7 @@ type SimFS struct {
 	CrashAt    int                 // the process dies before call #CrashAt (-1: never)
 	FailAt     int                 // call #FailAt fails with FailErr (-1: never)
 	FailErr    error
+	FailedOp   string // kind of the call the injected error hit
 	Dead       bool
 	Trace      []string
 	Paths      map[string]bool // every path touched (confinement)
@@ -79,6 +80,7 @@ func (fs *SimFS) hook(op verifos.Op, done bool, resErr error) error {
 			return errProcessDead
 		}
 		if idx == fs.FailAt {
+			fs.FailedOp = op.Kind
 			fs.Trace = append(fs.Trace, fmt.Sprintf("#%d %s %s -> injected %v", idx, op.Kind, filepath.Base(op.Path), fs.FailErr))
 			return fs.FailErr
 		}
